@@ -1150,6 +1150,68 @@ fn parse_makeflags<S: AsRef<OsStr>>(flags: S) -> Result<Option<(RawFd, RawFd)>, 
     }
 }
 
+/// Probes used by an external verification harness (feature `zombiezen_redo_rs_verif`).
+#[cfg(feature = "zombiezen_redo_rs_verif")]
+pub mod verif_hooks {
+    use super::*;
+
+    fn drain(fd: RawFd) -> usize {
+        let mut buf = [0u8; 8192];
+        try_read(fd, &mut buf).ok().flatten().unwrap_or(0)
+    }
+
+    /// Runs `do_force_return_tokens` on a fresh pair of pipes from the given state.
+    ///
+    /// Returns `(ok, my_tokens after, cheats after, bytes written to the token
+    /// pipe, bytes written to the cheat pipe)`.
+    pub fn force_return_tokens_probe(
+        my_tokens: i32,
+        cheats: i32,
+        n_children: usize,
+        top_level: i32,
+    ) -> (bool, i32, i32, usize, usize) {
+        let token_fds = make_pipe(100).expect("token pipe");
+        let cheat_fds = make_pipe(102).expect("cheat pipe");
+        let mut state = ServerState::default();
+        state.my_tokens = my_tokens;
+        state.cheats = cheats;
+        for i in 0..n_children {
+            // A descriptor number that is only used as a key.
+            state.wait_fds.insert(
+                10_000 + i as RawFd,
+                Job {
+                    name: String::new(),
+                    pid: Pid::from_raw(1),
+                    state: Rc::new(RefCell::new(JobState::default())),
+                },
+            );
+        }
+        let mut server = JobServer {
+            params: Rc::new(ServerParams {
+                token_fds,
+                cheat_fds,
+                top_level,
+            }),
+            state: Rc::new(RefCell::new(state)),
+            dropped: false,
+        };
+        let ok = std::panic::catch_unwind(std::panic::AssertUnwindSafe(|| {
+            server.do_force_return_tokens().is_ok()
+        }))
+        .unwrap_or(false);
+        let (mt, ch) = {
+            let st = server.state.borrow();
+            (st.my_tokens, st.cheats)
+        };
+        let tok = drain(token_fds.0);
+        let cheat = drain(cheat_fds.0);
+        for fd in [token_fds.0, token_fds.1, cheat_fds.0, cheat_fds.1] {
+            let _ = unistd::close(fd);
+        }
+        (ok, mt, ch, tok, cheat)
+    }
+}
+
 #[cfg(test)]
 mod tests {
     use super::*;
